@@ -122,12 +122,15 @@ func cmdVerify(args []string) int {
 			if os.Getenv("GOVC_TRIED") != "" && g.Secs > 5 {
 				fmt.Printf("      tried: %s\n", strings.Join(g.Tried, " "))
 			}
-			if g.Status == "failed" {
+			if g.Status == "unknown" && g.Candidate {
+				fmt.Printf("        (candidate input found in the quantifier-weakened query)\n")
+			}
+			if g.Status == "failed" || (g.Status == "unknown" && g.Candidate) {
 				for _, k := range sortedKeys(g.Model) {
 					if strings.HasPrefix(k, "havoc.") || strings.HasPrefix(k, "ret") {
 						continue
 					}
-					if strings.HasPrefix(k, "(select") && !*verbose {
+					if strings.HasPrefix(k, "(") && !*verbose {
 						continue // array contents only with -v
 					}
 					fmt.Printf("        %s = %s\n", k, g.Model[k])
